@@ -18,6 +18,7 @@ EXPLANATION = ('R05.1 sensitivity_to_shear/bulk == TB05 eq. 33 with dy1/dr the s
                'R05.5 energy theorem in differential form and surface value of the flux; R05.6 the flux is constant through liquid layers with real bulk modulus and continuous across every interface kind '
                '(so the theorem holds for layered bodies); R05.7 both kernels are non-negative sums of squares along solutions, hence Im k <= 0 for dissipative or elastic layers. R05.1, R05.2, R05.5 and R05.7 are decided on every arm of every data-dependent test in the kernels.')
 EXPLANATION += ' R05.9 the compiled solver returns, for the tidal type, what the theorem presupposes: surface condition, interface continuity, assembled solution in the span of the integrated ones, k = y5(R) - 1 (whole-driver symbolic execution, dimensional and non-dimensionalised); R05.10 loop index widths.'
+EXPLANATION += ' R05.11 the compiled rheology models return passive moduli (C07 R07.1 / R07.4 under this property: reciprocal of the published compliance on every arm; Im J a negative sum of positive products).'
 EXPLANATION += ' R05.8 the array twin of calc_radial_tidal_heating: with array arguments (mutable cells; np.asarray hands the same array back) the returned profile is the scalar value and the sensitivity profile the caller passed is left intact.'
 
 
@@ -190,6 +191,14 @@ def run(chk):
     SW.guarded(chk, 'C05', lambda: SW.liquid_y3(chk, repo, 'R05.9'))
     index_width_lint(chk, repo, 'R05.10', ['TidalPy/RadialSolver/**/*.pyx', 'TidalPy/utilities/dimensions/*.pyx'])
     chk.floor('R05.9', 20); chk.floor('R05.10', 30)
+    # ---- R05.11 "Im k <= 0 whenever every layer is dissipative or elastic" is about the moduli the compiled rheology models hand to the solver: R05.7 shows Im k <= 0 for
+    #      Im(mu), Im(K) >= 0; that the models return such moduli follows from their being the reciprocal of the published compliances (C07 R07.1: on every arm of every test
+    #      they make on their arguments), whose imaginary part is a negative sum of products of positive quantities (C07 R07.4)
+    from .common import RuleAlias
+    from . import c07 as C7
+    al7 = RuleAlias(chk, 'R05.11', lambda rule, inst: rule in ('R07.1', 'R07.4'))
+    C7.run(al7)
+    chk.floor('R05.11', 12)
     chk.floor('R05.1', 24); chk.floor('R05.2', 4); chk.floor('R05.3', 3)
     chk.assume('r > 0 at every node; moduli complex; the world radius is the last element of the radius array')
 
